@@ -82,7 +82,7 @@ func (c *Ctx) newFrame(fn *ssa.Function, depth int) *Frame {
 	fr := &Frame{id: c.frames, fn: fn, vals: map[ssa.Value]Val{}, cells: map[*ssa.Alloc]*Ptr{}, depth: depth,
 		out: map[*ssa.BasicBlock]*State{}, edgeCond: map[[2]int]string{}, loopOf: map[*ssa.BasicBlock]*loopInfo{}, callSeq: map[string]int{}}
 	fr.pfx = fmt.Sprintf("f%d_", fr.id)
-	fr.contract = c.eng.contracts[fnKey(fn)]
+	fr.contract = c.eng.contractOf(fn)
 	return fr
 }
 
@@ -796,7 +796,7 @@ func (c *Ctx) contractObjMods(fr *Frame, call *ssa.CallCommon) ([]objMod, bool) 
 	if callee == nil {
 		return nil, false
 	}
-	ct := c.eng.contracts[fnKey(callee)]
+	ct := c.eng.contractOf(callee)
 	if ct == nil || c.callPolicy(callee, ct, fr.depth) != polContract {
 		return nil, false
 	}
@@ -970,7 +970,7 @@ func (c *Ctx) callMods(fr *Frame, call *ssa.CallCommon, ms *modSet, depth int) {
 		ms.all = true
 		return
 	}
-	ct := c.eng.contracts[fnKey(callee)]
+	ct := c.eng.contractOf(callee)
 	switch c.callPolicy(callee, ct, depth+fr.depth) {
 	case polInline:
 		if depth > 6 {
